@@ -8,6 +8,8 @@ import (
 
 // vhLogout: a logout message scenario.
 type vhLogout struct {
+	twinDestination, twinVersion           string // values of x:Destination / x:Version (attributes of the same local name in a foreign namespace), "" = absent
+	hasTwin                                bool
 	root                                   *etree.Element
 	sig                                    int
 	kind                                   string
@@ -56,6 +58,15 @@ func VH_C10_logout_post() {
 	kinds := []string{"samlp:LogoutRequest", "samlp:LogoutResponse", "samlp:Response"}
 	kind := kinds[vChoice("root.kind", 3)]
 	l := vhLogoutRoot(kind, vChoice("root.sig", 3), "root")
+	if vFlag("foreign-namespace-twin-attributes") {
+		// attributes with the same local names in a foreign namespace after the real ones (encoding/xml fills an
+		// unqualified `attr` field from every attribute of that local name, the last one wins)
+		l.hasTwin = true
+		l.twinDestination, l.twinVersion = vString("root.x.Destination"), vString("root.x.Version")
+		l.root.CreateAttr("xmlns:x", "urn:example:other")
+		l.root.CreateAttr("x:Destination", l.twinDestination)
+		l.root.CreateAttr("x:Version", l.twinVersion)
+	}
 	if kind != "samlp:Response" && vFlag("very-large-message") {
 		// more than a thousand elements before the message's own signature
 		l.root.CreateAttr("vx-many", "1")
@@ -90,8 +101,8 @@ func VH_C10_logout_post() {
 		vAssert("C02,C10.bad-root-signature-is-fatal", skip || l.sig != vhSigInvalid)
 		vAssert("C02,C10.untrusted-or-expired-certificate-is-fatal", vCertRejections() == 0)
 		vAssert("C04,C10.request-flag-iff-root-verified", req.SignatureValidated == rootVerified)
-		vAssert("C04,C10.request-fields-are-the-roots", vAnd(vAnd(req.ID == l.ID, req.Destination == l.Destination), vAnd(req.Version == l.Version,
-			req.Issuer != nil && req.NameID != nil)))
+		vAssert("C04,C10.request-fields-are-the-roots", vAnd(vAnd(req.ID == l.ID, vOr(req.Destination == l.Destination, l.hasTwin && req.Destination == l.twinDestination)),
+			vAnd(vOr(req.Version == l.Version, l.hasTwin && req.Version == l.twinVersion), req.Issuer != nil && req.NameID != nil)))
 		if req.Issuer != nil && req.NameID != nil {
 			vAssert("C04,C10.request-issuer-and-nameid-are-the-roots", vAnd(req.Issuer.Value == l.Issuer, req.NameID.Value == l.NameID))
 		}
@@ -114,7 +125,8 @@ func VH_C10_logout_post() {
 	vAssert("C02,C10.bad-root-signature-is-fatal", skip || l.sig != vhSigInvalid)
 	vAssert("C02,C10.untrusted-or-expired-certificate-is-fatal", vCertRejections() == 0)
 	vAssert("C04,C10.response-flag-iff-root-verified", resp.SignatureValidated == rootVerified)
-	vAssert("C04,C10.response-fields-are-the-roots", vAnd(vAnd(resp.ID == l.ID, resp.InResponseTo == l.InResponseTo), vAnd(resp.Destination == l.Destination, resp.Version == l.Version)))
+	vAssert("C04,C10.response-fields-are-the-roots", vAnd(vAnd(resp.ID == l.ID, resp.InResponseTo == l.InResponseTo),
+		vAnd(vOr(resp.Destination == l.Destination, l.hasTwin && resp.Destination == l.twinDestination), vOr(resp.Version == l.Version, l.hasTwin && resp.Version == l.twinVersion))))
 	vAssert("C04,C10.response-issuer-is-the-roots", resp.Issuer != nil && resp.Issuer.Value == l.Issuer)
 	vAssert("C10.accepted-response-passed-the-checks", vAnd(vAnd(resp.Version == "2.0", vOr(resp.Destination == "", resp.Destination == sp.ServiceProviderSLOURL)),
 		resp.Status != nil && resp.Status.StatusCode != nil && resp.Status.StatusCode.Value == "urn:oasis:names:tc:SAML:2.0:status:Success"))
